@@ -297,7 +297,13 @@ class Model:
         solutions: list[dict[str, int]] = []
         iterations = [0]  # Use list for mutation in nested function
 
-        def backtrack(domains: dict[str, set[int]]) -> bool:
+        # One entry per decision level: (domains, variable, values still to try). An explicit
+        # stack instead of recursion, so that models with more than ~1000 decision variables
+        # do not overflow the interpreter's recursion limit.
+        stack: list[tuple[dict[str, set[int]], str, Any]] = []
+
+        def open_node(domains: dict[str, set[int]]) -> bool:
+            """Record a solution or push a decision level. True once solution_limit is reached."""
             iterations[0] += 1
 
             # Check if all assigned
@@ -310,21 +316,23 @@ class Model:
 
             # MRV: pick variable with smallest domain
             var_name = min(unassigned, key=lambda n: len(domains[n]))
-            var_domain = list(domains[var_name])
+            stack.append((domains, var_name, iter(list(domains[var_name]))))
+            return False
 
-            for val in var_domain:
+        done = open_node(domains)
+        while stack and not done:
+            level_domains, var_name, values = stack[-1]
+            for val in values:
                 # Make assignment
-                new_domains = {n: d.copy() for n, d in domains.items()}
+                new_domains = {n: d.copy() for n, d in level_domains.items()}
                 new_domains[var_name] = {val}
 
                 # Propagate
                 if self._propagate(new_domains):
-                    if backtrack(new_domains):
-                        return True
-
-            return False
-
-        backtrack(domains)
+                    done = open_node(new_domains)
+                    break
+            else:
+                stack.pop()
 
         if not solutions:
             if hints:
